@@ -710,3 +710,32 @@ Proof.
     - reflexivity. }
   rewrite E, IH by assumption. reflexivity.
 Qed.
+
+(* ------------------------------------------- selection by the root container *)
+
+Lemma select_owner_spec name tasks d :
+  In d (select_owner name tasks) <-> In d tasks /\ root_label (fst d) = Some name.
+Proof.
+  unfold select_owner. rewrite filter_In. unfold owned_by. split; intros [H1 H2]; split; auto.
+  - destruct (root_label (fst d)); [|discriminate H2]. apply pystr_eqb_spec in H2. subst. reflexivity.
+  - rewrite H2. apply pystr_eqb_refl.
+Qed.
+
+(* the selection keeps the dict order and depends on the targets only: nothing
+   about the container OBJECTS (their type, their ==) enters *)
+Lemma select_owner_app name a b : select_owner name (a ++ b) = select_owner name a ++ select_owner name b.
+Proof. apply filter_app. Qed.
+
+Lemma select_owner_partition name tasks :
+  (List.length (select_owner name tasks) + List.length (filter (fun d => negb (owned_by name d)) tasks) = List.length tasks)%nat.
+Proof. unfold select_owner. induction tasks as [|d r IH]; cbn; [reflexivity|]. destruct (owned_by name d); cbn; lia. Qed.
+
+Theorem copy_expr_from_spec cs fuel ts src name binds ow :
+  forallb (wf_task (ns_with cs binds) fuel) (select_owner name src) = true ->
+  copy_expr_from fuel {| ms_containers := cs; ms_tasks := ts |} src name binds ow =
+  Some {| ms_containers := cs;
+          ms_tasks := merge ow ts (map (subpair (ns_with cs binds)) (select_owner name src)) |}.
+Proof.
+  intros Hw. unfold copy_expr_from. cbn [mstep ms_containers ms_tasks].
+  rewrite load_dump_spec by assumption. reflexivity.
+Qed.
